@@ -7,7 +7,6 @@ import (
 	"math"
 	"os"
 	"strconv"
-	"time"
 
 	"github.com/hnakamur/whispertool"
 )
@@ -33,11 +32,11 @@ func (t timestampValue) String() string {
 }
 
 func (t timestampValue) Set(s string) error {
-	t2, err := time.Parse(whispertool.UTCTimeLayout, s)
+	t2, err := whispertool.ParseTimestamp(s)
 	if err != nil {
 		return err
 	}
-	*t.t = whispertool.TimestampFromStdTime(t2)
+	*t.t = t2
 	return nil
 }
 
